@@ -44,13 +44,13 @@ TDom(fmt, ver) ==
   CASE fmt \in {"install", "download", "size", "encoding", "patch_index"} -> 0..3
     [] fmt = "root" -> IF ver = 1 THEN {1} ELSE {0, 1}
     [] fmt = "tvfs" -> {1}      \* the content-key column is a property of the table, not of an entry
-    [] fmt \in {"patch_archive", "build_config", "cdn_config"} -> {0, 1}
+    [] fmt \in {"patch_archive", "build_config", "cdn_config", "espec"} -> {0, 1}
     [] OTHER -> {0}
 FmtVers ==
   {<<"install", 1>>, <<"download", 1>>, <<"download", 2>>, <<"download", 3>>, <<"size", 1>>, <<"size", 2>>,
    <<"archive_index", 4>>, <<"archive_index", 5>>, <<"archive_index", 6>>, <<"encoding", 1>>,
    <<"root", 1>>, <<"root", 2>>, <<"root", 3>>, <<"root", 4>>, <<"tvfs", 0>>, <<"tvfs", 1>>,
-   <<"patch_archive", 0>>, <<"patch_archive", 1>>, <<"patch_index", 1>>, <<"bpsv", 0>>, <<"bpsv", 1>>,
+   <<"patch_archive", 0>>, <<"patch_archive", 1>>, <<"patch_archive", 2>>, <<"espec", 0>>, <<"espec", 1>>, <<"patch_index", 1>>, <<"bpsv", 0>>, <<"bpsv", 1>>,
    <<"build_config", 0>>, <<"cdn_config", 0>>, <<"keyring_config", 0>>}
 
 \* abstract bytes: layout tag + entries.  "canon" is what the serialiser writes; "alt" stands for every
